@@ -76,6 +76,11 @@ func simplifyCurve(curve Path,
 	if len(curve) == 0 {
 		return nil
 	}
+	if len(curve) < 3 {
+		// Nothing can be removed, and the loop below only terminates when it
+		// reaches a third point.
+		return append(out, curve...)
+	}
 
 	i := 0
 	for {
